@@ -241,6 +241,7 @@ func runRateSeq(burst float64, timeout int64, seq []rop) (impl, model []adm) {
 			}
 			if op.k > 0 {
 				now := vs.Now().UnixNano()
+				before := m.next
 				at, to := m.acquire(now, op.k)
 				ctx := context.Background()
 				gaveUp, tie := false, false
@@ -249,15 +250,16 @@ func runRateSeq(burst float64, timeout int64, seq []rop) (impl, model []adm) {
 					ctx, cancel = vs.WithTimeout(ctx, time.Duration(op.cancel))
 					defer cancel()
 					if !to && at > now+op.cancel {
-						// the permits are due after the caller has given up: the call ends then, not admitted
-						at, gaveUp = now+op.cancel, true
+						// the permits are due after the caller's deadline: turned away at once, nothing is taken
+						at, gaveUp = now, true
+						m.next = before
 					}
 					tie = !to && at == now+op.cancel
 				}
 				model = append(model, adm{at - base, op.k, to, gaveUp, tie})
 				err := l.Acquire(ctx, op.k)
-				impl = append(impl, adm{vs.Now().UnixNano() - base, op.k, err == core.ErrTimeout, err != nil && err != core.ErrTimeout && ctx.Err() != nil, false})
-				if err != nil && err != core.ErrTimeout && ctx.Err() == nil {
+				impl = append(impl, adm{vs.Now().UnixNano() - base, op.k, err == core.ErrTimeout, err != nil && err != core.ErrTimeout && (ctx.Err() != nil || err == context.DeadlineExceeded), false})
+				if err != nil && err != core.ErrTimeout && err != context.DeadlineExceeded && ctx.Err() == nil {
 					impl[len(impl)-1].at = -1
 				}
 			}
